@@ -20,6 +20,7 @@ Inductive loc :=
 | SysExe | SysCfg | SysEbpf | SysUnit      (* the installed agent: the four system paths *)
 | PkgExe | PkgCfg | PkgEbpf | PkgUnit      (* the package beside the setup tool *)
 | BakExe | BakCfg | BakEbpf | BakUnit      (* the backup written by `backup` *)
+| BakTmp                                   (* Backup/Package/azure-proxy-agent.tmp: the executable while it is being saved *)
 | BakOther (rel : bytes)                   (* any other entry below <setup>/ProxyAgent/Backup/ *)
 | Outside (abs : bytes).                   (* any other absolute path *)
 
@@ -27,7 +28,7 @@ Definition loc_eqb (a b : loc) : bool :=
   match a, b with
   | SysExe, SysExe | SysCfg, SysCfg | SysEbpf, SysEbpf | SysUnit, SysUnit
   | PkgExe, PkgExe | PkgCfg, PkgCfg | PkgEbpf, PkgEbpf | PkgUnit, PkgUnit
-  | BakExe, BakExe | BakCfg, BakCfg | BakEbpf, BakEbpf | BakUnit, BakUnit => true
+  | BakExe, BakExe | BakCfg, BakCfg | BakEbpf, BakEbpf | BakUnit, BakUnit | BakTmp, BakTmp => true
   | BakOther x, BakOther y => beq x y
   | Outside x, Outside y => beq x y
   | _, _ => false
@@ -36,7 +37,7 @@ Definition loc_eqb (a b : loc) : bool :=
 Definition is_sys (l : loc) : bool :=
   match l with SysExe | SysCfg | SysEbpf | SysUnit => true | _ => false end.
 Definition in_backup (l : loc) : bool :=
-  match l with BakExe | BakCfg | BakEbpf | BakUnit | BakOther _ => true | _ => false end.
+  match l with BakExe | BakCfg | BakEbpf | BakUnit | BakTmp | BakOther _ => true | _ => false end.
 (* the locations a command may alter: system paths and the backup folder (the tool's own log is
    not a location of the model; see Setup.v [wtool]) *)
 Definition allowed (l : loc) : bool := is_sys l || in_backup l.
@@ -71,6 +72,7 @@ Definition pjoin (a b : bytes) : bytes :=
 
 Definition dot_service : bytes := [46; 115; 101; 114; 118; 105; 99; 101].   (* ".service" *)
 Definition unit_file_name : bytes := Consts.setup_service_name ++ dot_service.
+Definition dot_tmp : bytes := [46; 116; 109; 112].   (* ".tmp": linux.rs backup_files "azure-proxy-agent.tmp" *)
 
 (* setup.rs proxy_agent_folder_in_setup; backup.rs *)
 Definition package_dir (sd : bytes) : bytes := pjoin sd Consts.setup_package_folder.
@@ -92,6 +94,7 @@ Definition render (sd : bytes) (l : loc) : bytes :=
   | BakCfg => pjoin (backup_package_dir sd) Consts.setup_config_file
   | BakEbpf => pjoin (backup_package_dir sd) Consts.setup_ebpf_file
   | BakUnit => pjoin (backup_dir sd) Consts.setup_service_config_file_name
+  | BakTmp => pjoin (backup_package_dir sd) (Consts.setup_exe_name ++ dot_tmp)
   | BakOther rel => pjoin (backup_dir sd) rel
   | Outside abs => abs
   end.
@@ -106,16 +109,16 @@ Fixpoint nodupb (l : list bytes) : bool :=
    the backup folder and none of them is a tool log: checked by computation for the setup
    directory the harness uses (Props/C17.v) *)
 Definition layout_ok (sd : bytes) : bool :=
-  nodupb (map (render sd) fixed_locs) &&
+  nodupb (map (render sd) (BakTmp :: fixed_locs)) &&
   forallb (fun l => negb (starts_with (render sd l) (backup_dir sd ++ [slash]))) (sys_locs ++ pkg_locs) &&
-  forallb (fun l => starts_with (render sd l) (backup_dir sd ++ [slash])) bak_locs &&
+  forallb (fun l => starts_with (render sd l) (backup_dir sd ++ [slash])) (BakTmp :: bak_locs) &&
   forallb (fun l => negb (starts_with (render sd l) (tool_log_prefix sd))) fixed_locs.
 
 (* an open-class location is well-formed when its path does not alias a computed one *)
 Definition wf_loc (sd : bytes) (l : loc) : bool :=
   match l with
   | BakOther rel =>
-      negb (existsb (beq (render sd l)) (map (render sd) bak_locs)) &&
+      negb (existsb (beq (render sd l)) (map (render sd) (BakTmp :: bak_locs))) &&
       match rel with [] => false | c :: _ => negb (c =? slash) end
   | Outside abs =>
       negb (existsb (beq abs) (map (render sd) fixed_locs)) &&
